@@ -97,6 +97,16 @@ def r_id(e, R):
                     "two threads can obtain the same work id", e.loc(sub, st))
             R.check(g.dominates(ins[0][0], n) and g.dominates(puts[0][0], n), "R-ID", "submit: id used (pending key, queue) before the increment",
                     sub.short, norm(st), "the id stored/queued is computed after the increment on some path", e.loc(sub, st))
+    # ... and the id is consumed together with its registration: nothing that can raise runs between the insert / put and the
+    # increment (otherwise submit() can exit with the id registered and queued but not consumed, and the next submission reuses it)
+    inc_nodes = [n for st in incs for n in g.nodes_of(st)]
+    pub = {ins[0][0], puts[0][0]}
+    between = g.find_path(ins[0][0], lambda n: n not in pub and n not in inc_nodes and bool(calls_in(n)), avoid=inc_nodes, use_exc=False) if inc_nodes else None
+    R.check(between is None, "R-ID", "submit: the id is consumed (counter incremented) before anything else can fail", sub.short,
+            "pending[id] = w; put(id); counter += 1", "a call that can raise runs between the registration of the work id and the increment of the counter: "
+            "when it raises (a failed worker spawn, an interrupt), submit() exits with the id registered and queued but not consumed; the next submission "
+            "reuses the id, overwrites the pending entry and a result is routed to the wrong future", e.loc(sub, incs[0]) if incs else None,
+            g.fmt_path(between) if between else None)
     for n, _ in ins + puts:
         R.check(e.token_in(held[n], a.shutdown_lock), "R-ID", f"submit: {norm(n.ast)[:50]} under the shutdown lock", sub.short, norm(n.ast)[:80],
                 "the pending insert / id put is outside the lock", e.loc(sub, n.ast))
